@@ -90,10 +90,13 @@ def gen_history(rng, quick):
         else:
             f = rng.choice(opened)
             r = rng.random()
-            if r < 0.15:
+            earlier = [s["text"] for s in steps if (s.get("open") or s.get("change")) == f]
+            if r < 0.12:
                 text = ""
-            elif r < 0.3:
+            elif r < 0.22:
                 text = "class Z;\n"
+            elif r < 0.45 and earlier:
+                text = rng.choice(earlier)          # an earlier text of this document again (possibly unchanged)
             else:
                 text = gen_text(rng, f)
             steps.append({"change": f, "text": text})
@@ -110,6 +113,9 @@ CORPUS = [
                {"change": "a.td", "text": 'include "b.td"\nclass ;\n'}, {"change": "c.td", "text": "class C;\n"}]},
     # a problem is fixed in place
     {"disk": {}, "steps": [{"open": "a.td", "text": "def d : M;\n"}, {"change": "a.td", "text": "class M;\ndef d : M;\n"}]},
+    # a faulty document leaves (another root) and comes back with the same text
+    {"disk": {}, "steps": [{"open": "a.td", "text": "def d : Missing;\n"}, {"open": "b.td", "text": "class B;\n"},
+                           {"change": "a.td", "text": "def d : Missing;\n"}]},
     # a file leaves and re-enters the workspace
     {"disk": {"b.td": "class ;\n"},
      "steps": [{"open": "a.td", "text": 'include "b.td"\n'}, {"change": "a.td", "text": "class A;\n"},
@@ -170,6 +176,21 @@ def observed_stream(out):
     return res
 
 
+def idle_prefixes(out):
+    """settled mode: the server is idle after every notification; returns [(number of notifications sent so far,
+    stream received so far)] at every idle point"""
+    res, stream, sent = [], [], 0
+    for e in out["log"]:
+        if e.get("ev") == "sent" and e.get("what") in ("didOpen", "didChange"):
+            sent += 1
+        elif e.get("ev") == "publish":
+            ds = sorted((tuple(d["range"]), d["message"]) for d in e["diagnostics"])
+            stream.append((e["version"], e["path"], ds))
+        elif e.get("ev") == "idle" and sent:
+            res.append((sent, list(stream)))
+    return res
+
+
 def model_stream(exe, maps_list):
     """maps_list: per history the list of maps.  Returns per history [(version, path, sorted diags)] of the model."""
     lines, tables = [], []
@@ -223,11 +244,18 @@ def oracle(stream, final_map, n_notif):
     return bad
 
 
-def reorder_holds(rng):
-    """try to let an earlier diagnostics task finish after a later one was spawned"""
-    pt = rng.choice(["task.start", "task.published_files.lock", "task.vfs_read.diagnostics", "task.vfs_acquired", "task.end"])
-    until = rng.choice(["main.spawn", "main.update_diagnostics", "main.vfs_write.acquired", "main.barrier.after", "task.start"])
-    return [{"point": pt, "until": until, "max_ms": 200, "count": rng.choice([1, 2, 3])}]
+REORDER = [(pt, until, count)
+           for until in ("task.end", "main.spawn", "task.published_files.lock", "main.barrier.after", "main.vfs_write.acquired",
+                         "task.start", "main.update_diagnostics")
+           for pt in ("task.vfs_read.diagnostics", "task.vfs_acquired", "task.published_files.lock", "task.start", "task.end")
+           for count in (1, 2)]
+
+
+def reorder_holds(k):
+    """try to let an earlier diagnostics task finish after a later one: park the task at one of its hook points until
+    another task ends / the main loop gets further (enumerated, k-th combination)"""
+    pt, until, count = REORDER[k % len(REORDER)]
+    return [{"point": pt, "until": until, "max_ms": 250, "count": count}]
 
 
 def run(ctx):
@@ -238,20 +266,20 @@ def run(ctx):
     t_setup = time.time() - t0
 
     rng = ctx.rng
-    n_hist = 160 if ctx.quick else 1500
+    n_hist = 160 if ctx.quick else 4000
     hists = [dict(h, mode="settled") for h in CORPUS] + [dict(h, mode="burst") for h in CORPUS]
     for i in range(n_hist):
         h = gen_history(rng, ctx.quick)
         r = i % 4
         h["mode"] = "settled" if r < 2 else "burst"
-        h["holds"] = reorder_holds(rng) if r == 3 else None
+        h["holds"] = reorder_holds(i // 4) if r == 3 else None
         hists.append(h)
     maps = expected_maps(bindir, hists)
     scripts = [session_script(h, h["mode"], h.get("holds")) for h in hists]
     outs = sl.run_sessions(bindir, scripts)
 
     stats = {"histories": 0, "notifications": 0, "publications": 0, "settled": 0, "burst": 0, "burst_with_holds": 0,
-             "files_that_left_workspace": 0, "ide_panics_skipped": 0, "hangs": 0}
+             "files_that_left_workspace": 0, "ide_panics_skipped": 0, "hangs": 0, "idle_points_checked": 0}
     usable, maps_list = [], []
     oracle_fail, corr_fail, samples = [], [], []
     nontrivial = set()
@@ -272,6 +300,15 @@ def run(ctx):
         stream = observed_stream(out)
         stats["publications"] += len(stream)
         bad = oracle(stream, ms[-1], n)
+        if not bad and h["mode"] == "settled":
+            # the property holds at EVERY idle point: the history so far is a history too
+            for sent, pre in idle_prefixes(out):
+                b2 = oracle(pre, ms[sent - 1], sent)
+                if b2:
+                    bad = [dict(x, after_notifications=sent) for x in b2]
+                    stats["idle_points_checked"] += 0
+                    break
+                stats["idle_points_checked"] += 1
         ever = {p for m in ms for p in m}
         left = ever - set(ms[-1])
         if left:
